@@ -41,6 +41,72 @@ func smallBounded(v ssa.Value, depth int) bool {
 	return false
 }
 
+// ReportAllocWrap (R-ALLOCWRAP): an allocation length or capacity computed as an unsigned difference a - b is
+// only sound on edges where a >= b is established: the difference of unsigned values wraps to a huge number
+// instead of going negative, and make() panics ("len/cap out of range") for an input the function used to answer.
+func ReportAllocWrap(w *World, r *Report, names ...string) {
+	r.Rule("R-ALLOCWRAP", "no make() length or capacity is an unsigned difference a - b (directly or through conversions, shifts and additions of constants) unless a >= b holds on every path to the allocation: an unsigned difference wraps instead of going negative and the allocation panics for inputs (empty or inverted ranges) the function otherwise answers")
+	for _, n := range names {
+		fn := findFunc(w, n)
+		if fn == nil || fn.Blocks == nil {
+			continue
+		}
+		fa := w.FA(fn)
+		bad := ""
+		nmk := 0
+		var usub func(v ssa.Value, depth int) *ssa.BinOp
+		usub = func(v ssa.Value, depth int) *ssa.BinOp {
+			if v == nil || depth > 8 {
+				return nil
+			}
+			switch x := v.(type) {
+			case *ssa.Convert:
+				return usub(x.X, depth+1)
+			case *ssa.BinOp:
+				if x.Op == token.SUB && isUnsigned(x.Type()) {
+					if _, isC := x.Y.(*ssa.Const); !isC {
+						return x
+					}
+				}
+				switch x.Op {
+				case token.ADD, token.SUB, token.SHR, token.SHL, token.QUO, token.MUL:
+					if s := usub(x.X, depth+1); s != nil {
+						return s
+					}
+					if x.Op == token.ADD || x.Op == token.MUL {
+						return usub(x.Y, depth+1)
+					}
+				}
+			case *ssa.Phi:
+				for _, e := range x.Edges {
+					if s := usub(e, depth+1); s != nil {
+						return s
+					}
+				}
+			}
+			return nil
+		}
+		eachInstr(fn, func(ins ssa.Instruction) {
+			mk, ok := ins.(*ssa.MakeSlice)
+			if !ok {
+				return
+			}
+			nmk++
+			for _, op := range []ssa.Value{mk.Len, mk.Cap} {
+				sub := usub(op, 0)
+				if sub == nil {
+					continue
+				}
+				bd := fa.BoundsAt(mk.Block(), fa.Lin(sub.X).Sub(fa.Lin(sub.Y)))
+				if !(bd.HasLo && bd.Lo >= 0) {
+					bad = fmt.Sprintf("the size of the allocation at %s derives from the unsigned difference at %s, whose operands are not ordered on every path to it (a - b in %s): it wraps when a < b", w.InstrPos(mk), w.InstrPos(sub), bd)
+				}
+			}
+		})
+		r.Check(bad == "", "R-ALLOCWRAP", n, w.Pos(fn.Pos()), bad, fmt.Sprintf("%d allocations, none sized by an unguarded unsigned difference", nmk))
+	}
+}
+
 func ReportIdxWidth(w *World, r *Report, names ...string) {
 	r.Rule("R-IDXWIDTH", "no index, slice bound or allocation length is derived from a wider integer (int, int64, len) through a conversion to a narrower integer type: positions beyond 2^31 must not wrap")
 	for _, n := range names {
